@@ -8,7 +8,7 @@ from hypothesis import strategies as st
 
 from .. import gen, refmodel, runcheck
 from ..core import CaseResult, case_hash
-from ..harness import run_program, snapshot
+from ..harness import run_program, snapshot, _all_step_lists as runcheck_step_lists
 from ..program import normalize, scenario_instances
 
 ID = "C12"
@@ -129,7 +129,36 @@ def recognise(hooks):
 
 
 # ---------------------------------------------------------------------------
+def check_environment_file(case):
+    """The standard Runner loads features/environment.py: every callable named like a hook is a hook, however it was
+    made (def, functools.partial, bound method, callable instance); the hook log and the verdict are those of the
+    reference model."""
+    from .. import disk
+    res = CaseResult()
+    prog = runcheck.resolve_faults(case["program"])
+    normalize(prog)
+    prog["hook_style"] = case["hook_style"]
+    ref = refmodel.simulate(prog)
+    proj = disk.Project(prog)
+    try:
+        argv = disk.cli_args(prog.get("cfg") or {}) + ["-f", "null", "--no-summary", "features"]
+        run = disk.run_inproc(proj, argv, prog)
+    finally:
+        proj.close()
+    res.nontrivial = len(ref.hooks) > 6
+    res.label("environment-file", "environment-file:hooks-are-" + (case["hook_style"] or "functions"))
+    if run.escaped is not None:
+        if not (isinstance(run.escaped, KeyboardInterrupt)):
+            res.fail("C12.environment-file.escape", "Runner.run() raised %r" % (run.escaped,))
+        return res
+    runcheck.check_hooks(res, "C12.environment-file", ref, run)
+    runcheck.check_verdict(res, "C12.environment-file.verdict", ref, run)
+    return res
+
+
 def check(case):
+    if case.get("kind") == "environment-file":
+        return check_environment_file(case)
     res = CaseResult()
     prog = copy.deepcopy(case["program"])
     normalize(prog)
@@ -155,6 +184,8 @@ def check(case):
         run = run_program(copy.deepcopy(prog))
         runcheck.check_hooks(res, "C12", ref, run)
         res.label("fault-free")
+        if (prog.get("cfg") or {}).get("continue_after_failed"):
+            res.label("continue-after-failed-step")
         if (prog.get("cfg") or {}).get("dry_run"):
             res.label("dry-run")
             if run.hooks:
@@ -342,6 +373,10 @@ def program_for_hooks(draw):
         # environment functions decorated with behave.log_capture.capture (documented): a raising hook still
         # counts, whether or not a log record was captured
         prog["capture_hooks"] = draw(st.sampled_from(["plain", "error"]))
+    outs = set(s["o"] for f in prog["features"] for lst in runcheck_step_lists(f) for s in lst)
+    if outs <= set(["pass", "fail", "raise"]) and draw(st.integers(0, 1)) == 0:
+        # the documented switch Scenario.continue_after_failed_step: a fault in a step hook stays within its step
+        prog["cfg"]["continue_after_failed"] = True
     if draw(st.integers(0, 3)) == 0:
         prog["omit_hooks"] = draw(st.lists(st.sampled_from(["before_tag", "before_tag", "after_tag", "before_step", "after_step",
                                                              "before_rule", "after_rule", "before_feature", "after_feature",
@@ -387,6 +422,12 @@ def explore(rec):
                                sub="sampled-pairs")
 
     rec.hyp("programs", program_for_hooks(), 260 if quick else 6000, fn=family)
+    rec.hyp("environment-file", st.builds(
+        lambda p, style, k: {"kind": "environment-file", "program": dict(p, hook_faults=[[k, "Exception"]]) if k % 3 == 0 else p,
+                             "hook_style": style},
+        gen.program_st(faults=False, max_features=2, outcomes=["pass", "pass", "fail", "undefined"],
+                       cfg=gen.cfg_st(flags=("stop",), p_tags=0.3)),
+        st.sampled_from([None, "partial", "method", "callable"]), st.integers(0, 10000)), 240 if quick else 5000)
     rec.hyp("dry-run", gen.program_st(faults=False, max_features=2, cfg=st.just({"dry_run": True})).map(
         lambda p: {"program": p, "faults": []}), 200 if quick else 3000)
 
@@ -398,8 +439,12 @@ def required_labels(tier):
                                                                      "dry-run", "skip-in-hook:feature",
                                                                      "skip-in-hook:rule", "skip-in-hook:scenario",
                                                                      "fault-in-@capture-decorated-hook", "exception-without-message", "raise-then-skip", "skip-via-mark_skipped",
-                                                                     "partial-environment:after_tag-without-before_tag"]
+                                                                     "partial-environment:after_tag-without-before_tag", "continue-after-failed-step",
+                                                                     "environment-file:hooks-are-partial", "environment-file:hooks-are-method",
+                                                                     "environment-file:hooks-are-callable", "environment-file:hooks-are-functions"]
 
 
 KNOWN_PREDICATES = {}
 RULE = RULE + " " + ('A quarter of the programs run with an environment that defines only some of the hook functions (e.g. after_tag without before_tag): the defined ones are called, and their faults counted, exactly as in a full environment.')
+RULE = RULE + " " + ('Half of the programs whose steps only pass / fail / raise run with Scenario.continue_after_failed_step: a fault in a step hook stays within its step, the following steps and their hooks run.')
+RULE = RULE + " " + ('A sample of programs runs through the standard Runner with a features/environment.py whose hooks are plain functions, functools.partial objects, bound methods or callable instances: same hook log and verdict.')
